@@ -286,7 +286,7 @@ class C29(Property):
         cases, by_id = [], {}
         for i, (d, ln) in enumerate(zip(corpus, lines)):
             d["corpus"] = True
-            dd = os.path.join(ctx.scratch, f"corpus{i}")
+            dd = os.path.join(ctx.scratch, f"corpus{ctx.mode}{i}")
             os.makedirs(dd, exist_ok=True)
             json.dump(d["doc"], open(os.path.join(dd, "wf.cwl"), "w"), indent=1)
             json.dump(d["job"], open(os.path.join(dd, "job.json"), "w"))
